@@ -4,7 +4,7 @@
     [sreach] strong reachability.  [order_complete h]: the heap walk meets every object.  The premise
     [gc ... = Some _] says the model's fuel sufficed (None = out of fuel). *)
 From Coq Require Import ZArith List Bool PArith FMapPositive.
-From ChibiV Require Import C16.Model C16.Spec C16.Proofs C16.GcProofs C16.FdProofs C16.FdSafety C16.History C16.HistProofs C16.Examples.
+From ChibiV Require Import C16.Model C16.Spec C16.Proofs C16.GcProofs C16.FdProofs C16.FdSafety C16.History C16.HistProofs C16.Examples C16.LayoutCheck Gen.C16_Layout.
 Import ListNotations.
 
 (** the mark phase + ephemeron fixpoint mark exactly the SPEC's live set *)
@@ -172,3 +172,13 @@ Theorem value_retained_refuted_for_pinned_collector :
     live (objs h) roots 2%positive /\ extra o' = [Ptr v] /\ PM.find v (objs h') = None.
 Proof. exact value_retained_refuted_for_pinned_collector_l. Qed.
 Print Assumptions value_retained_refuted_for_pinned_collector.
+
+(** (G) regenerated from the build on every run (gen/c16_layout.py -> Gen/C16_Layout.v): the running type table has
+    exactly one weak type, the ephemeron, laid out as the model assumes; port/fileno finalisers are where the model
+    puts them; sexp_gc runs its phases in the modelled order with the ephemeron fixpoint first in the weak pass *)
+Theorem layout_and_phase_order_as_modelled :
+  weak_types = [(ephemeron_tag, 0, 0, true, 1, 0, 1)]%Z /\
+  filter (fun p => snd p <? 3)%Z finalised_types = [(iport_tag, 1); (iport_tag + 1, 1); (fileno_tag, 2)]%Z /\
+  gc_phases = [1; 2; 3; 4; 5]%Z.
+Proof. exact layout_as_modelled_l. Qed.
+Print Assumptions layout_and_phase_order_as_modelled.
